@@ -315,9 +315,17 @@ def cell_strategy(max_points=8):
 
     shapes = [(1, 0, True), (1, 1, True), (1, 0, False), (1, 1, False), (2, 0, False), (2, 1, False), (2, 2, False),
               (3, 0, False), (3, 1, False), (3, 2, False), (3, 3, False)]
-    # lattice-free shapes are cheap and simple: sample them less often; full-rank lattices lose most to the
-    # singular-value rejection: sample them more often
-    weighted = [s for s in shapes for _ in range(1 if s[1] == 0 else (4 if s[1] == s[0] else 2))]
+    # lattice-free shapes are cheap and simple: sample them less often; full-rank lattices in 2-D/3-D lose most to
+    # the singular-value rejection and are the interesting enumerations: sample them more often
+    def weight(shape):
+        d, K, _ = shape
+        if K == 0:
+            return 1
+        if K == d and d > 1:
+            return 5 if d == 3 else 4
+        return 3 if (d, K) == (3, 2) else 2
+
+    weighted = [s for s in shapes for _ in range(weight(s))]
     return st.sampled_from(weighted).flatmap(for_shape)
 
 
